@@ -370,7 +370,8 @@ var badData = map[string][]string{
 	"add-json":      {"", "{", "[1]", `{"stake":-5}`, `{"stake":"7"}`},
 	"chacc-json":    {"", "nul", `{"account":5}`},
 	"refund-json":   {"", "{", `{"Amount":5}`, `[]`},
-	"refund-amount": {`{"Amount":"-1","MinerId":"0x01"}`, `{"Amount":"1.5","MinerId":"0x01"}`, `{"Amount":"","MinerId":"0x01"}`, `{"Amount":"18446744073709551616","MinerId":"0x01"}`, `{}`, `null`},
+	"refund-amount": {`{"Amount":"-1","MinerId":"0x01"}`, `{"Amount":"1.5","MinerId":"0x01"}`, `{"Amount":"","MinerId":"0x01"}`, `{"Amount":"18446744073709551616","MinerId":"0x01"}`, `{}`, `null`,
+		`{"Amount":"+5","MinerId":"0x01"}`, `{"Amount":" 5","MinerId":"0x01"}`, `{"Amount":"0x10","MinerId":"0x01"}`, `{"Amount":"1e3","MinerId":"0x01"}`},
 }
 var badType = map[string]int32{"apply-json": types.TransactionTypeMinerApply, "add-json": types.TransactionTypeMinerAdd,
 	"chacc-json": types.TransactionTypeMinerChangeAccount, "refund-json": types.TransactionTypeMinerRefund, "refund-amount": types.TransactionTypeMinerRefund}
